@@ -101,6 +101,36 @@ def mergeat_existing(name: str, a: int, b: int, c: int, x: int, y: int) -> bool:
     return got == want
 
 
+def mergeat_policies(h: int, ar: int, a: int, b: int, c: int, x: int, y: int) -> bool:
+    """Non-default policies apply at the target: the matched node equals the judged merge, the rest is unchanged."""
+    from harness.c05 import HASHES, ARRAYS
+    from vf.model_merge import judge, ERR
+    h, ar = realize(h), realize(ar)
+    lhs = _left(a, b, c)
+    rhs = cmap(("p", x), ("l2", cseq(y)), ("q", cmap(("z", y))))
+    lhs["a"]["l2"] = cseq(a, x)
+    lhs["a"]["q"] = cmap(("z", b))
+    pl, pr = to_plain(lhs), to_plain(rhs)
+    args = SimpleNamespace(mergeat="/a", config=None, hashes=HASHES[h], arrays=ARRAYS[ar])
+    note(left=pl, right=pr, mergeat="/a", hashes=HASHES[h], arrays=ARRAYS[ar])
+    merger = Merger(LOG, lhs, MergerConfig(LOG, args))
+    try:
+        merger.merge_with(rhs)
+    except MergeException:
+        return False
+    got = to_plain(merger.data)
+    pol = {"hashes": HASHES[h], "arrays": ARRAYS[ar], "aoh": "all", "sets": "unique"}
+    note(merged=got)
+    for k in got:
+        if k != "a" and got[k] != pl[k]:
+            return False
+    if list(got.keys()) != list(pl.keys()):
+        return False
+    if HASHES[h] == "right":
+        return True      # replacing the target node itself by the right-hand hash: root-replacement semantics are only defined for '/'
+    return judge(pl["a"], pr, got["a"], pol, True)
+
+
 def mergeat_missing(where: int, kind: int, x: int, y: int, a: int, b: int, c: int) -> bool:
     """A missing target path is created to hold the right-hand document; nothing else changes."""
     x, y = realize(x), realize(y)
@@ -135,6 +165,10 @@ def shards(tier, seed):
                          ["-9 <= a <= 9 and -9 <= b <= 9 and -9 <= c <= 9", "-9 <= x <= 9 and -9 <= y <= 9"],
                          family="existing/%s" % name, budget=900,
                          desc="mergeat %s with a right-hand %s" % CASES[name], bounds={"leaves": "[-9,9]"}))
+    out.append(shard(PID, "policies", "harness.c11", "mergeat_policies(h, ar, a, b, c, x, y)",
+                     [("h", "int"), ("ar", "int"), ("a", "int"), ("b", "int"), ("c", "int"), ("x", "int"), ("y", "int")],
+                     ["0 <= h < 3 and 0 <= ar < 4", "-2 <= a <= 2 and -2 <= b <= 2 and -2 <= c <= 2 and -2 <= x <= 2 and -2 <= y <= 2"],
+                     family="policies", budget=1200, desc="hash/array policies at a mergeat target; complement unchanged"))
     for where in range(5):
         for kind in range(2):
             out.append(shard(PID, "missing/w%d_k%d" % (where, kind), "harness.c11",
